@@ -963,7 +963,8 @@ func buildLogging(g *graph.Graph) Logging {
 	logSettings := Logging{ErrorLevel: defaultErrorLogLevel}
 
 	ngfProxy := g.NginxProxy
-	if ngfProxy != nil && ngfProxy.Source.Spec.Logging != nil {
+	// settings of an NginxProxy that failed validation must not reach the NGINX configuration
+	if ngfProxy != nil && ngfProxy.Valid && ngfProxy.Source.Spec.Logging != nil {
 		if ngfProxy.Source.Spec.Logging.ErrorLevel != nil {
 			logSettings.ErrorLevel = string(*ngfProxy.Source.Spec.Logging.ErrorLevel)
 		}
